@@ -1,6 +1,6 @@
 From Coq Require Import List NArith Lia.
 Import ListNotations.
-Open Scope N_scope.
+Local Open Scope N_scope.
 Definition M32 := 4294967296.
 Definition w (x:N) := x mod M32.
 Definition rotl (x:N) (c:N) := w (N.lor (N.shiftl x c) (N.shiftr x (32 - c))).
